@@ -37,7 +37,7 @@ def gen_case(g):
         op["seed"] = g.randint(0, 10 ** 9)
         ops.append(op)
     return {"kind": "c02", "descs": descs, "edges": edges, "ops": ops,
-            "via": g.choice(["ctor", "ctor", "ops"])}
+            "via": g.choice(["ctor", "ctor", "ops", "iand"])}
 
 
 def materialise(case):
